@@ -40,7 +40,7 @@ os.environ.setdefault("PV_FAST_INFER", "0")
 
 
 def nshards(tier):
-    return 12
+    return 12 if tier == "quick" else 14  # thorough: shards 12 and 13 are the two coverage-guided campaigns
 
 
 class Hang(BaseException):
@@ -305,7 +305,81 @@ def cases(draw):
     return {"src": src, "opts": opts, "family": "constexpr-body", "constexpr_calls": n}
 
 
+def ensure_atheris():
+    """atheris lives in /verif/.deps (untracked): installed from the offline wheelhouse on first use"""
+    import subprocess
+    import sys
+
+    from ..runner import ROOT
+
+    deps = os.path.join(ROOT, ".deps")
+    probe = [sys.executable, "-c", "import sys; sys.path.insert(0, %r); import atheris" % deps]
+    if subprocess.run(probe, capture_output=True).returncode == 0:
+        return None
+    r = subprocess.run([sys.executable, "-m", "pip", "install", "-q", "--no-index", "--find-links", "/opt/veriftools/wheels", "--target", deps, "atheris"],
+                       capture_output=True, text=True)
+    if subprocess.run(probe, capture_output=True).returncode == 0:
+        return None
+    return (r.stderr or r.stdout or "import failed")[-300:]
+
+
+def fuzz_campaign(ctx, mode, runs):
+    """one atheris/libFuzzer campaign (pv/fuzz_c10.py) in a process of its own; its counters join the shard's"""
+    import json
+    import shutil
+    import subprocess
+    import sys
+    import tempfile
+
+    from ..runner import HarnessError
+
+    why = ensure_atheris()
+    if why:
+        raise HarnessError("atheris cannot be installed from the offline wheelhouse: " + why)
+    from ..runner import WORK_DIR
+
+    os.makedirs(os.path.join(WORK_DIR, ID), exist_ok=True)
+    out = tempfile.mkdtemp(prefix="fuzz_%s_" % mode, dir=os.path.join(WORK_DIR, ID))
+    try:
+        ctx.crumb({"family": "atheris-campaign", "mode": mode, "src": ""})
+        p = subprocess.run([sys.executable, "-m", "pv.fuzz_c10", out, str(runs), str(ctx.seed), mode], capture_output=True, text=True)
+        try:
+            with open(os.path.join(out, "summary.json")) as f:
+                summ = json.load(f)
+        except OSError:
+            raise HarnessError("fuzz campaign left no summary (exit %s): %s" % (p.returncode, (p.stderr or "")[-600:]))
+        ctx.stats.evaluations += summ["evaluations"]
+        ctx.stats.nontrivial.update(summ["nontrivial"])
+        ctx.stats.classes.update(summ["classes"])
+        ctx.stats.notes.update(summ["notes"])
+        for smp in summ["samples"][:2]:
+            ctx.stats.sample(smp, limit=6)
+        corpus_n = len(os.listdir(os.path.join(out, "corpus")))
+        ctx.stats.extra.setdefault("coverage_guided_campaigns", []).append(
+            {"mode": mode, "runs_requested": runs, "executions": summ["executions"], "corpus_units_kept_by_coverage": corpus_n,
+             "libfuzzer_exit": p.returncode})
+        vf = os.path.join(out, "violation.json")
+        if os.path.exists(vf):
+            with open(vf) as f:
+                v = json.load(f)
+            # judged again in this process, outside the fuzzer: only what reproduces from the saved input counts
+            r = replay(v["case"])
+            if r["kind"] == "violation":
+                ctx.stats.violations.append({"signature": r["signature"], "detail": dict(r["detail"], found_by="atheris-" + mode), "case": v["case"]})
+            else:
+                ctx.stats.notes["fuzzer-violation-not-reproducible:" + v["signature"]] += 1
+        elif p.returncode != 0:
+            # libFuzzer itself died (its own crash/timeout/leak report): the input it saved is judged like any other
+            ctx.stats.notes["libfuzzer-exit-%s" % p.returncode] += 1
+    finally:
+        shutil.rmtree(out, ignore_errors=True)
+
+
 def run_shard(ctx):
+    if ctx.shard == 12:
+        return fuzz_campaign(ctx, "tokens", 25000)
+    if ctx.shard == 13:
+        return fuzz_campaign(ctx, "hypothesis", 20000)
     if ctx.shard == 0:
         # all 256 vectors, as dataclass and as dict, on one program
         base = programs.HDR + "def f(a):\n    db.Setting = a + LogicType.On\nwhile True:\n    f(1)\n    f(d0.Setting)\n    yield_()\n"
